@@ -131,12 +131,24 @@ func (c *cs) planDamage(orc *oracle, gitDir, cwdTop string) *damagePlan {
 		}
 		return strings.TrimSpace(out)
 	}
+	// every fourth case starts with "the stash commit itself is gone" (a MISSING object also defeats existence tests
+	// such as `git show-ref --verify`, which a merely corrupt one does not: fix 79635e9)
+	forced := c.cfg.Idx%4 == 1
+	if forced {
+		mode = "deleted"
+	}
 	for k := 0; k < len(damageKinds); k++ {
 		kind := damageKinds[(c.cfg.Idx+rot+k)%len(damageKinds)]
+		if forced {
+			kind = damageKinds[k] // "stash-commit" first
+		}
 		sha, why := "", ""
 		switch kind {
 		case "stash-commit":
 			spec := []string{"refs/stash^{commit}", "refs/stash^2"}[c.cfg.Idx/3%2]
+			if forced {
+				spec = "refs/stash^{commit}"
+			}
 			sha, why = rev(c.main, spec), spec
 		case "stash-tree":
 			sha, why = rev(c.main, "refs/stash^{tree}"), "refs/stash^{tree}"
